@@ -163,6 +163,17 @@ Definition smiles_check_full (m : str) (ia : bool) (r1 r2 : option (mgraph * mgr
   | _, _ => false
   end.
 
+(** AAMValidator.validate_smiles(data, ground_truth_col, mapped_cols, check_method, ignore_aromaticity, n_jobs, verbose,
+    ignore_tautomers=True): for every mapper column k the check_pair verdicts over the records (record order; check_pair =
+    smiles_check(record[mapped_col], record[ground_truth_col], method, ia)), the number of True ones and the number of records
+    (accuracy = round(100 * count / n, 2), 0.0 without records: a float the harness derives from the exact pair) *)
+Definition orow : Type := (option (mgraph * mgraph) * list (option (mgraph * mgraph)))%type.   (* ground truth, mapped columns *)
+Definition validate_column (m : str) (ia : bool) (k : nat) (rows : list orow) : list bool * nat * nat :=
+  let res := map (fun r : orow => smiles_check_full m ia (nth k (snd r) None) (fst r)) rows in
+  (res, length (filter (fun b : bool => b) res), length rows).
+Definition validate_smiles (m : str) (ia : bool) (ncols : nat) (rows : list orow) : list (list bool * nat * nat) :=
+  map (fun k => validate_column m ia k rows) (seq 0 ncols).
+
 (** FixAAM.fix_aam_rsmi at graph level: every map number (= node id of the parsed graph) is increased by one *)
 Definition fix_aam_graph (G : mgraph) : mgraph := set_amap (relabel N.succ G).
 
@@ -218,6 +229,8 @@ Definition run_bal_str (formula : list (str * option str)) (s : str) : tok :=
   match rsmi_balance_check (slookup formula) s with Some b => tbool b | None => I (-1) end.
 Definition run_expand (nR : nat) (maps : list Z) : tok :=
   L [tlist I (fst (expand_sides nR maps)); tlist I (snd (expand_sides nR maps))].
+Definition run_validate (m : str) (ia : bool) (ncols : nat) (rows : list orow) : tok :=
+  tlist (fun c : list bool * nat * nat => L [tlist tbool (fst (fst c)); tnat (snd (fst c)); tnat (snd c); I 1]) (validate_smiles m ia ncols rows).
 Definition run_fixaam (G H : mgraph) : tok := L [tmgraph (fix_aam_graph G); tmgraph (fix_aam_graph H)].
 Definition run_subgraph (G : mgraph) (keep order : list N) : tok :=
   L [tmgraph (extract_subgraph G keep); tmgraph (reset_indices_by order (extract_subgraph G keep)); tmgraph (reset_indices G)].
